@@ -1,1 +1,66 @@
-From CG Require Import Spec.Sets.
+(* Props/C03.v — C03: query results are well-formed, window-clipped, chronologically ordered
+   streams; stored timelines return their events in (start, end) order.  Statements only. *)
+From CG Require Import Proofs.Defs Proofs.Compl Proofs.Merge Proofs.Diff Proofs.InterDisjoint
+     Proofs.Clip Proofs.Stored Proofs.RefSpec.
+
+(* SortedList insertion keeps (start, end) order for every insertion history *)
+Theorem C03_stored_start_end_order : forall evs, sorted_key (sl_build evs) = true.
+Proof. exact sl_build_sorted. Qed.
+Print Assumptions C03_stored_start_end_order.
+
+(* a stored fetch is the sub-list of the sorted store meeting the window; reverse = reversed *)
+Theorem C03_stored_fetch : forall store a b, sorted_key store = true ->
+  fetch_static store a b false = filter (in_range a b) store /\
+  fetch_static store a b true = rev (fetch_static store a b false).
+Proof. exact fetch_static_spec. Qed.
+Print Assumptions C03_stored_fetch.
+
+(* every element a slice returns is a clip: non-empty, inside the window, None exactly where the
+   clip is unbounded (no sentinel ever appears), payload kept *)
+Theorem C03_clip_shape : forall a b i g, In g (clipW a b i) ->
+  pl g = pl i /\ fstart g = Z.max (fstart i) (bnd_lo a) /\ fend g = Z.min (fend i) (bnd_hi b) /\
+  fstart g < fend g /\ g = mkI (unS (fstart g)) (unE (fend g)) (pl i).
+Proof. exact clipW_shape. Qed.
+Print Assumptions C03_clip_shape.
+
+Theorem C03_slice_is_clip : forall m xs a b, sorted_start xs ->
+  inter_sweep [xs; [mkI a b Plain]] (emit_sel [m; true]) = flat_map (clipW a b) xs.
+Proof. exact clip_sweep_masks. Qed.
+Print Assumptions C03_slice_is_clip.
+
+(* order: union (merge by key of key-sorted streams), intersection (any sorted operands),
+   difference (non-overlapping source; KF-D1 otherwise), complement *)
+Theorem C03_union_sorted : forall ss,
+  Forall (sorted_le key_le) ss -> sorted_le key_le (merge_by lt_fwd ss).
+Proof. exact merge_fwd_sorted. Qed.
+Print Assumptions C03_union_sorted.
+
+Theorem C03_union_sorted_reverse : forall ss,
+  Forall (sorted_le key_ge) ss -> sorted_le key_ge (merge_by lt_rev ss).
+Proof. exact merge_rev_sorted. Qed.
+Print Assumptions C03_union_sorted_reverse.
+
+Theorem C03_intersection_sorted : forall streams sel,
+  (2 <= length streams)%nat -> Forall sorted_start streams ->
+  sorted_start (inter_sweep streams sel).
+Proof. exact inter_sweep_sorted. Qed.
+Print Assumptions C03_intersection_sorted.
+
+Theorem C03_difference_sorted_partial : forall src subs,
+  Forall wf_ivl src -> disjoint_sorted src -> Forall wf_ivl subs -> sorted_start subs ->
+  disjoint_sorted (dsweep src subs).
+Proof. exact dsweep_disjoint_sorted. Qed.
+Print Assumptions C03_difference_sorted_partial.
+
+Theorem C03_complement_wf : forall xs a b,
+  wf_win a b -> Forall wf_ivl xs -> sorted_start xs ->
+  canonical a b (compl_sweep xs a b) = true.
+Proof. exact compl_sweep_canonical. Qed.
+Print Assumptions C03_complement_wf.
+
+(* KF-D1 also breaks order: fragments of overlapping source events come out of start order *)
+Theorem C03_difference_order_refuted :
+  dsweep [mkI (Some 2) (Some 5) (Rich 2); mkI (Some 3) (Some 4) (Rich 1)] [mkI (Some 3) (Some 4) Plain]
+  = [mkI (Some 2) (Some 3) (Rich 2); mkI (Some 4) (Some 5) (Rich 2); mkI (Some 3) (Some 4) (Rich 1)].
+Proof. vm_compute. reflexivity. Qed.
+Print Assumptions C03_difference_order_refuted.
